@@ -41,6 +41,21 @@ def handle (f : List String) : String :=
     | some ranges =>
       let d := obsAll (make (0.0 : Float) ranges) (parseBitsList vs)
       s!"ranges={showRanges d.buckets} {showObs d} cum={cum d}"
+  | ["expo", _decs, bs, va, vb] =>
+    -- two label sets, each with its own observations: the exported cumulative counts of a label
+    -- set are those of its own datum
+    match rangesOfDecl ((parseBitsList bs).map bitsToFV) with
+    | none => "reject"
+    | some ranges =>
+      let one (vs : String) : String :=
+        let d := obsAll (make (0.0 : Float) ranges) (parseBitsList vs)
+        let byMax := d.buckets.foldl (fun acc p => match p.1.max with
+          | .num k => insertSorted (k, p.2) acc
+          | .nan => acc) []
+        let r := byMax.foldl (fun (acc : Nat × List String) p =>
+          (acc.1 + p.2, acc.2 ++ [fvToBitsStr (.num p.1) ++ ":" ++ toString (acc.1 + p.2)])) (0, [])
+        ",".intercalate r.2
+      s!"a={one va} b={one vb}"
   | _ => "BAD-CASE"
 
 end MtailVerif.Driver.C21
